@@ -137,30 +137,29 @@ Definition mpow (a : Mx) (n : nat) : Mx :=
   match n with O => midentity c | S k => mpow_from c c k end.
 
 (* ---- indexing ---- *)
-(* a slice key carries its step; the code overwrites the step with 1 (slice(start, stop, 1)), i.e.
-   ignores it: `step_accepted` is the single place that says so *)
+(* a slice key carries its step; __getitem__ rejects steps other than None / 1
+   (`if rows.step not in (None, 1) ...: raise`); __setitem__ does not look at the step *)
 Inductive key1 := KInt (z : Z) | KSl (a b st : option Z).
-Definition step_accepted (st : option Z) : bool := true.
+Definition step_accepted (st : option Z) : bool :=
+  match st with None => true | Some z => z =? 1 end.
 
 Definition neg_norm (n z : Z) : Z := if z <? 0 then n - Z.abs z else z.
 Definition chk (n s e : Z) : option (Z * Z) :=
   if (s >? n) || (e >? n) || (s <? 0) || (e <? 0) then None else Some (s, e).
-Definition sl_bounds (n : Z) (a b st : option Z) : option (Z * Z) :=
-  if negb (step_accepted st) then None else
+Definition sl_bounds (n : Z) (a b : option Z) : option (Z * Z) :=
   chk n (match a with None => 0 | Some s => neg_norm n s end)
         (match b with None => n | Some e => neg_norm n e end).
 (* __getitem__ normalises a negative int BEFORE building slice(i, i+1) *)
 Definition key_get (n : Z) (k : key1) : option (Z * Z) :=
   match k with
   | KInt z => let z' := neg_norm n z in if z' <? 0 then None else chk n z' (z' + 1)
-  | KSl a b st => sl_bounds n a b st
+  | KSl a b st => if step_accepted st then sl_bounds n a b else None
   end.
-(* __setitem__ builds slice(i, i+1) first and normalises start and stop separately
-   (so i = -1 gives slice(n-1, 0)) *)
+(* __setitem__ normalises a negative int the same way (since the repair of m[-1, c] = v) *)
 Definition key_set (n : Z) (k : key1) : option (Z * Z) :=
   match k with
-  | KInt z => chk n (neg_norm n z) (neg_norm n (z + 1))
-  | KSl a b st => sl_bounds n a b st
+  | KInt z => let z' := neg_norm n z in if z' <? 0 then None else chk n z' (z' + 1)
+  | KSl a b st => sl_bounds n a b
   end.
 
 (* self[kr, kc]; a single element is returned as a 1x1 result (it is a WireVector of width bits) *)
@@ -219,11 +218,9 @@ Definition put_ix (count : Z) (mode : pmode) (ix : Z) : option Z :=
 (* value for the v_ix-th index when v is a tuple/list: repeat the LAST value *)
 Definition put_val_list (v : list Z) (ix : nat) : option Z :=
   Some (if (length v <=? ix)%nat then last v 0 else nth ix v 0).
-(* when v is a row-vector Matrix the code compares ix with count of SELF, then reads v[0, ix]
-   (which raises when ix >= v.columns) *)
-Definition put_val_mat (count : Z) (v : list Z) (ix : nat) : option Z :=
-  if Z.of_nat ix >=? count then Some (last v 0)
-  else if (ix <? length v)%nat then Some (nth ix v 0) else None.
+(* when v is a row-vector Matrix: `if ix >= v.columns: return v[0, -1]` else v[0, ix] *)
+Definition put_val_mat (v : list Z) (ix : nat) : option Z :=
+  Some (if Z.of_nat ix >=? Z.of_nat (length v) then last v 0 else nth ix v 0).
 
 Definition set_flat (a : Mx) (ix : Z) (x : Z) : Mx :=
   let c := cols_of a in
@@ -253,7 +250,7 @@ Definition mput_list (a : Mx) (ind v : list Z) (mode : pmode) : option Mx :=
   end.
 Definition mput_mat (a : Mx) (ind : list Z) (v : Mx) (mode : pmode) : option Mx :=
   let count := Z.of_nat (rows_of a * cols_of a) in
-  put_loop a count mode (put_val_mat count (nth 0 (dat v) [])) ind 0.
+  put_loop a count mode (put_val_mat (nth 0 (dat v) [])) ind 0.
 
 (* ---- reshape / flatten ---- *)
 (* source coordinates of the ix-th element read in C (row-major) / F (column-major) order *)
@@ -325,11 +322,11 @@ Fixpoint argmax_from (mx : Z) (idx : Z) (l : list Z) : Z :=
 (* bit length of Const(n) *)
 Definition const_len (n : Z) : Z := if n =? 0 then 1 else Z.log2 n + 1.
 
-(* argmax(matrix, axis, bits): for axis 0/1 the max is first computed by max(matrix, axis, bits),
-   i.e. truncated to `bits`, and then compared with the untruncated elements *)
+(* argmax(matrix, axis, bits): the max is first computed by max(matrix, axis, bits=matrix.bits)
+   (a Matrix(1, n, bits=matrix.bits) with the default max_bits=64) and compared with the elements *)
 Definition margmax (a : Mx) (ax : axis) (b : option Z) : Mx :=
   let bb := default_bits a b in
-  let mxm := mmax a ax b in
+  let mxm := mmax a ax (Some (bits a)) in
   match ax with
   | AxNone =>
       let l := flat (dat a) in
@@ -343,14 +340,13 @@ Definition margmax (a : Mx) (ax : axis) (b : option Z) : Mx :=
 Definition is11 (a : Mx) : bool := Nat.eqb (rows_of a) 1 && Nat.eqb (cols_of a) 1.
 Definition same_shape (a b : Mx) : bool :=
   Nat.eqb (rows_of a) (rows_of b) && Nat.eqb (cols_of a) (cols_of b).
-(* a[:, :] is a WireVector when a is 1x1 and a Matrix otherwise;
-   WireVector * Matrix raises, WireVector * WireVector is a wire, Matrix * WireVector is scalar *)
+(* x[:, :] is a WireVector when x is 1x1 and a Matrix otherwise.
+   first 1x1: `second[:, :] * first[0, 0]`; second 1x1: `first[:, :] * second[:, :]` *)
 Definition mdot (a b : Mx) : option Mx :=
-  if is11 a || is11 b then
-    if is11 a then
-      if is11 b then Some (MkMx (2 * Z.max (bits a) (bits b)) (maxb a) [[el a 0 0 * el b 0 0]])
-      else None
-    else Some (mscal a (bits b) (el b 0 0))
+  if is11 a then
+    if is11 b then Some (MkMx (2 * Z.max (bits a) (bits b)) (maxb a) [[el a 0 0 * el b 0 0]])
+    else Some (mscal b (bits a) (el a 0 0))
+  else if is11 b then Some (mscal a (bits b) (el b 0 0))
   else
     let inner x y := if same_shape x y then Some (msum (mmul x y) AxNone None) else None in
     if Nat.eqb (rows_of a) 1 && Nat.eqb (rows_of b) 1 then inner a b
